@@ -17,6 +17,7 @@ PROFILES = {
     "C04": dict(invariants=("coh", "imm"), kinds=("warm", "warm", "dup", "evict"), flips=True),
     "C02": dict(invariants=("coh", "mass", "imm"), kinds=("warm", "evict"), flips=True),
     "C19": dict(invariants=("samp", "coh", "imm"), kinds=("warm", "evict", "rekey", "rekey", "restore_dict"), flips=True, profile="sample"),
+    "C15": dict(invariants=("coh", "imm"), kinds=("swap", "swap", "swap", "warm"), flips=False, profile="repr"),
     "C01": dict(invariants=("prod", "imm", "coh"), kinds=("warm", "warm", "evict", "dup"), flips=True, profile="product"),
 }
 
@@ -96,7 +97,8 @@ def run(seed, tier, prop):
         for k in range(K):
             kinds = tuple(x for x in prof["kinds"] if not x.startswith("restore_"))
             vias = tuple(x.split("_", 1)[1] for x in prof["kinds"] if x.startswith("restore_"))
-            faults, n = gen.fault_schedule(seed, k, records, cfg, kinds=kinds, restore_vias=vias)
+            faults, n = gen.fault_schedule(seed, k, records, cfg, kinds=kinds, restore_vias=vias,
+                                           slot_cls={sid: sl.cls for sid, sl in w0.slots.items()})
             recs_k, flips = flip_records(records, seed, k) if prof["flips"] else (records, [])
             nflip = len(flips)
             w = World(salt=seed, invariants=prof["invariants"], findings=fnd)
